@@ -121,6 +121,7 @@ int32 matrixUpdateSession(ssl_t *ssl) { return 0; }
 #define GK (g_in.k < 46 ? g_in.k : 0)
 #define POSTS(P) \
     P(verdict_is_documented,               OK || RET == MATRIXSSL_ERROR || RET == SSL_MEM_ERROR) \
+    P(C19_session_keeps_no_pointer_to_freed_memory, VR_LIVE(g_ssl.sec.premaster) && VR_LIVE(g_ssl.sec.dhKeyPub) && VR_LIVE(g_ssl.sec.dhP) && VR_LIVE(g_ssl.sec.dhG) && VR_LIVE(g_ssl.sec.dhKeyPriv)) /* what matrixSslDeleteSession / the next handshake will free again */ \
     P(success_leaves_cursor_in_message,    IMPLIES(OK, __CPROVER_same_object(g_cur, g_store) && __CPROVER_POINTER_OFFSET(g_cur) >= START && __CPROVER_POINTER_OFFSET(g_cur) <= BUFN)) \
     P(success_moves_to_finished_or_certificate_verify, IMPLIES(OK, g_ssl.hsState == ((g_in.flags & SSL_FLAGS_CLIENT_AUTH) ? SSL_HS_CERTIFICATE_VERIFY : SSL_HS_FINISHED))) \
     P(C04_rsa_decrypt_failure_is_not_reported, IMPLIES(RSA_MODE && gh.rsa == 1 && g_in.prng_rc >= 0 && g_in.keys_rc >= 0, OK)) \
